@@ -716,6 +716,10 @@ def _gensymorder_rule(chk, prog):
             return st | {"moved"}
         if x.k == "call" and x.callee in ("janet_string_calchash",) and any(y.k == "mem" and y.field == "gensym_counter" for y in x.walk()):
             return st - {"moved"}
+        if x.k == "call" and any(y.k == "un" and y.op == "&" and is_ref(strip_casts(y.kids[0])) for a in x.args for y in a.walk()):
+            # an out-parameter is written: what was known about those locals is gone
+            names = set(strip_casts(y.kids[0]).name for a in x.args for y in a.walk() if y.k == "un" and y.op == "&" and is_ref(strip_casts(y.kids[0])))
+            return frozenset(t for t in st if not (t.startswith("true:") and t[5:] in names))
         return st
     def edge(st, blk, succ, cond, truth):
         # `(inc_gensym(), 1)` is always true: its false edge does not exist
@@ -726,13 +730,12 @@ def _gensymorder_rule(chk, prog):
             c = strip_casts(c.kids[-1])
         if c is not None and c.k == "int" and ((c.v != 0) != bool(truth)):
             return None
-        # `A && (step(), 1)` as a whole is false only when A was: a path that has just run the step cannot leave by the false edge
+        # the same local cannot test true and then false on one path without having been written in between
         c = strip_casts(cond) if cond is not None else None
-        if c is not None and c.k == "bin" and c.op == "&&" and not truth and "moved" in st:
-            r = strip_casts(c.kids[1])
-            while r.k == "paren":
-                r = strip_casts(r.kids[0])
-            if r.k == "bin" and r.op == "," and strip_casts(r.kids[-1]).k == "int" and strip_casts(r.kids[-1]).v != 0:
+        if c is not None and is_ref(c):
+            if truth:
+                return st | {"true:" + c.name}
+            if ("true:" + c.name) in st:
                 return None
         return st
     IN, OUT, T = flow.forward_paths(fn, frozenset(), transfer, edge)
